@@ -17,6 +17,19 @@ def _bump(path, delta=1):
     return fn
 
 
+def _setlook(i):
+    def fn(e):
+        try:
+            cur = e['obs']['look'][i]
+        except (KeyError, IndexError, TypeError):
+            return None
+        if e.get('target') in ('word', 'ws'):
+            return None
+        cur[1] = 'B' if cur[1] != 'B' else 'A'
+        return e
+    return fn
+
+
 PROPS = {
     'C11': dict(
         tv=dict(module='ScannerTrace', cfg='ScannerTrace.cfg'),
@@ -24,6 +37,12 @@ PROPS = {
         corrupt=[('obs.col+1', _bump('obs.col')), ('obs.pline+1', _bump('obs.pline')), ('ret+1', _bump('ret'))],
         exhaustive_part=True,
         assumptions=['guarded hook StringScanner.VerifCursor returns position+1 (io/verif_hooks.go)'],
+    ),
+    'C17': dict(
+        tv=dict(module='CharMapTrace', cfg='CharMapTrace.cfg'),
+        mc=[dict(module='CharMapMC', cfg={'quick': 'CharMapMC.quick.cfg', 'thorough': 'CharMapMC.thorough.cfg'})],
+        corrupt=[('look[3] id', _setlook(3))],
+        exhaustive_part=True,
     ),
 }
 
@@ -40,5 +59,16 @@ DOC = {
         note='Trusted: TLC, the Json module, the recorder, the guarded hook VerifCursor (position+1). Exhaustive only up to the stated '
              'content length; longer contents are sampled by seeded random walks.',
         technique='TLA+ spec + TLC exhaustive refinement check (ScannerMC) + TLC trace validation of the real scanner\'s explored state graph (ScannerTrace)',
+    ),
+    'C17': dict(
+        level='CharMap.tla specifies the map as the list of registrations since the last clear with lookup = latest covering '
+              'registration; CharMapMC.tla checks with TLC that the implementation-shaped model (direct table below U+0100, newest-first '
+              'interval list above, clamping at U+FFFE) refines it for all histories up to the bound over the boundary endpoints. The '
+              'real CharReferenceMap, AbstractTokenizer.Set/Get/ClearCharacterState(s) and the word/whitespace character classes are '
+              'driven through all histories of length <= 2 (88 operations each) and random longer ones; CharMapTrace.tla checks the '
+              'identity of every looked-up reference at 19 probe characters after every operation.',
+        note='Trusted: TLC, Json module, the recorder (pointer identity of the returned reference). Endpoints restricted to the boundary '
+             'set of the property and their neighbours; histories longer than 2 are sampled.',
+        technique='TLA+ spec + TLC refinement check (CharMapMC) + TLC trace validation of exhaustive/random registration histories (CharMapTrace)',
     ),
 }
